@@ -52,6 +52,10 @@ CHECKS = {
    technique="runtime monitor: big.Int/big.Rat reference (truncation, saturation table, exact rounding) over generated boundary workloads",
    text="Int64/Int32/Uint64/Uint32, Int, Rat are observed on decimals at every type bound +/-1 with fractions and cohort variants, fractions in (-1,1), huge exponents, specials; FromInt64/32/Uint64/32 on machine integers; FromInt on big.Ints up to 20000 bits (ties at the 34/35-digit cut, nine-runs, around MaxFinite) and FromRat on rationals with small, terminating, huge and out-of-range terms, under each DefaultRoundingMode; FromRat(d.Rat()) must be value-equal to d. Exploration.",
    ref="DESIGN.md §5 C10"),
+ "C11": dict(
+   technique="runtime monitor: exact scaling oracle (big.Int times power of ten rounded into the member set) and exact Frexp invariants, per DefaultRoundingMode phase",
+   text="New is observed for significands {+/-1, powers of ten, int64 extremes, tie shapes, random} x exponents -6300..6300 (dense at both range ends) and int extremes; Ldexp for operands at both exponent ends with compensating exponents up to +/-12400, threshold magnitudes, zeros/specials; Frexp on all classes with 0.1<=|frac|<1, frac*10^e == d exactly and Ldexp(Frexp(d)) == d. Exploration.",
+   ref="DESIGN.md §5 C11"),
 }
 
 PENDING = "monitor for this property is not built yet in this revision (work in progress; see DESIGN.md §5 for the planned monitor)"
